@@ -689,10 +689,44 @@ _HANDOFF_CASES = [
 ]
 
 
+def _fresh_window_buffer(ctx, res, fn):
+    """window/fresh-buffer: the per-base accumulator of a window starts from zero in every window: it is allocated inside the window loop, or re-zeroed there"""
+    lps = [n for n in walk_no_nested_fn(fn.body) if n.k == "loop"]
+    if not lps:
+        res.undecided("window/fresh-buffer", fn, "window loop not found")
+        return
+    lp = lps[0]
+    accs = set()
+    for x in walk_no_nested_fn(lp["body"]):
+        if x.k == "for" and strip(x["iter"]).k in ("ref", "index") or (x.k == "for" and "&mut " in up(x["iter"])):
+            mm_ = re.match(r"&mut ([a-z_]\w*)\[", up(x["iter"]))
+            if mm_ and any(y.k == "binary" and y["op"] == "+=" for y in walk_no_nested_fn(x["body"])):
+                accs.add(mm_.group(1))
+    if len(accs) != 1:
+        res.undecided("window/fresh-buffer", lp, "the per-base accumulator of the window was not identified (%s)" % sorted(accs))
+        return
+    acc = accs.pop()
+    inside = [x for x in walk_no_nested_fn(lp["body"]) if x.k == "let" and up(x["pat"]).replace("mut ", "") == acc]
+    zeroed = [x for x in walk_no_nested_fn(lp["body"]) if x.k == "mcall" and x["method"] == "fill" and up(strip(x["recv"])) == acc and len(x["args"]) == 1
+              and up(strip(x["args"][0])) in ("0.0", "0f64", "0.0f64", "0.")]
+    if inside:
+        init = up(strip(inside[0]["init"])) if inside[0].get("init") is not None else ""
+        if re.match(r"vec!\[0(\.0)?(f64)?;", init.replace(" ", "")) or "zeroed" in init or "vec![0" in init.replace(" ", ""):
+            res.ok(inside[0], "window accumulator `%s` is allocated zeroed inside the window loop: every window starts from zero" % acc)
+        else:
+            res.undecided("window/fresh-buffer", inside[0], "initial contents of the window accumulator `%s` not recognised (`%s`)" % (acc, init[:50]))
+    elif zeroed and zeroed[0].order < min([x.order for x in walk_no_nested_fn(lp["body"]) if x.k == "for"] or [10 ** 9]):
+        res.ok(zeroed[0], "window accumulator `%s` is re-zeroed at the start of every window" % acc)
+    else:
+        res.fail("window/fresh-buffer", lp, "the per-base accumulator `%s` is allocated outside the window loop and not re-zeroed inside it: when one call walks more than one window "
+                                            "(a window yielding a single run, or an empty one) the sums of the previous window are added into the next" % acc)
+
+
 def ob_window_handoff(ctx, res):
     """C15-W2"""
     from ..rules.interp import Interp, NotPure, _Return
     fn = ctx.ast.fn(ME, "next", impl="ValueIter")
+    _fresh_window_buffer(ctx, res, fn)
     lps = [n for n in walk_no_nested_fn(fn.body) if n.k == "loop"]
     st = lps[0]["body"]["stmts"] if lps and lps[0]["body"].k == "block" else []
     i1 = [i for i, x in enumerate(st) if re.search(r"self\.last_val = Some\(", up(x))]
